@@ -55,6 +55,15 @@ SeqLine(k, e) ==
               \o (IF dirty # {} THEN <<D(k, "dirty-entry", "a generation call started from leftover state")>> ELSE <<>>)
     /\ UNCHANGED <<fresh, digests, covered, ops>>
 
+(* ---- C08 for a generator without a seed: every generate() draws fresh OS entropy, so a call that returns
+   exactly what an earlier generate() on the same generator returned has NOT been independent of it ---- *)
+Unseeded(k, e) ==
+    /\ msgs' = LET gens == {j \in 1..Len(e.seq) : e.seq[j] = 1 /\ e.calls[j][1] = 1}
+                   rep == {j \in gens : \E h \in gens : h < j /\ e.calls[h] = e.calls[j] /\ e.calls[j][3] > 40}
+               IN IF rep # {} THEN <<V(k, "C08", <<"an unseeded generator returned an earlier result again at call", CHOOSE j \in rep : \A x \in rep : j <= x, "of", e.seq>>)>>
+                  ELSE <<>>
+    /\ UNCHANGED <<fresh, digests, covered, ops>>
+
 (* ---- C07: the result is a function of (configuration, entropy input) only ---- *)
 Det(k, e) ==
     /\ digests' = IF e.job \in DOMAIN digests THEN digests ELSE Put(digests, e.job, <<e.digest, e.len, e.ctx>>)
@@ -139,6 +148,7 @@ Step ==
        IN /\ i' = k
           /\ CASE e.t = "fresh" -> Fresh(k, e)
                [] e.t = "seq" -> SeqLine(k, e)
+               [] e.t = "unseeded" -> Unseeded(k, e)
                [] e.t = "det" -> Det(k, e)
                [] e.t = "total" -> Total(k, e)
                [] e.t = "vocab" -> Vocab(k, e)
